@@ -469,6 +469,13 @@ func (st *c05State) runAll(units []*c05Unit) error {
 		}
 		progs[i].y = runYaegi(progs[i].src, yaegiOpts{Timeout: 20 * time.Second})
 	})
+	// a run that timed out under load is repeated alone with a long time-out (these programs take milliseconds)
+	for _, p := range progs {
+		if p.y.End == "timeout" && !p.child {
+			p.y = runYaegi(p.src, yaegiOpts{Timeout: 120 * time.Second})
+			st.note("program %s timed out in the parallel phase and was run again: %s", p.name, p.y.End)
+		}
+	}
 	parallelMap(len(st.extras), 0, func(i int) {
 		e := st.extras[i]
 		if e.child {
@@ -480,6 +487,12 @@ func (st *c05State) runAll(units []*c05Unit) error {
 		}
 		e.y = runYaegi(e.src, yaegiOpts{Timeout: 20 * time.Second})
 	})
+	for _, e := range st.extras {
+		if e.y.End == "timeout" && !e.child {
+			e.y = runYaegi(e.src, yaegiOpts{Timeout: 120 * time.Second})
+			st.note("program %s timed out in the parallel phase and was run again: %s", e.name, e.y.End)
+		}
+	}
 	wg.Wait()
 	if refErr != nil {
 		return refErr
